@@ -290,8 +290,24 @@ func ruleEndStream(c *core.Ctx) {
 	args := calls[0].Args
 	lits := 0
 	var bodies []string
+	// closures bound to locals (`writeTerminator := func(...) {...}`) count like literals passed in place
+	bound := map[types.Object]*ast.FuncLit{}
+	ast.Inspect(d.Body, func(n ast.Node) bool {
+		if as, ok := n.(*ast.AssignStmt); ok && len(as.Lhs) == 1 && len(as.Rhs) == 1 {
+			if fl, ok := as.Rhs[0].(*ast.FuncLit); ok {
+				if o := identObj(info, as.Lhs[0]); o != nil {
+					bound[o] = fl
+				}
+			}
+		}
+		return true
+	})
 	for _, a := range args {
-		if fl, ok := a.(*ast.FuncLit); ok {
+		fl, ok := ast.Unparen(a).(*ast.FuncLit)
+		if !ok {
+			fl, ok = bound[identObj(info, a)]
+		}
+		if ok && fl != nil {
 			lits++
 			txt := ""
 			ast.Inspect(fl.Body, func(n ast.Node) bool {
